@@ -249,6 +249,73 @@ def rejects(which: int, keep_a: bool, internal_flag: bool) -> bool:
         return False
 
 
+def build_extended(ops_first):
+    """Compute-style API: Instances.Insert is an extended operation polled through ZoneOps.Get"""
+    from lib.gen import ex_ops_pb2
+    fb = gen.FileBuilder("google/example/sel/v1/x.proto", PKG)
+    op = fb.message("Operation", [("name", "string"), ("status", "string"), ("error_code", "int32"), ("error_message", "string")])
+    for f in op.field:
+        f.options.Extensions[ex_ops_pb2.operation_field] = f.number
+    for n in ("InsertReq", "GetOpReq", "DelOpReq", "ListOpReq", "ListOpRsp", "GetInstReq", "Instance"):
+        fb.message(n, [("name", "string")])
+
+    def ops():
+        z = fb.service("ZoneOps")
+        fb.method(z, "Delete", "DelOpReq", "Operation")
+        g = fb.method(z, "Get", "GetOpReq", "Operation")
+        g.options.Extensions[ex_ops_pb2.operation_polling_method] = True
+        fb.method(z, "List", "ListOpReq", "ListOpRsp")
+
+    def inst():
+        i = fb.service("Instances")
+        m = fb.method(i, "Insert", "InsertReq", "Operation")
+        m.options.Extensions[ex_ops_pb2.operation_service] = "ZoneOps"
+        fb.method(i, "GetInst", "GetInstReq", "Instance")
+    if ops_first:
+        ops()
+        inst()
+    else:
+        inst()
+        ops()
+    return [fb.f]
+
+
+XM = [("Instances.Insert", ("InsertReq", "Operation")), ("Instances.GetInst", ("GetInstReq", "Instance")),
+      ("ZoneOps.Delete", ("DelOpReq", "Operation")), ("ZoneOps.Get", ("GetOpReq", "Operation")),
+      ("ZoneOps.List", ("ListOpReq", "ListOpRsp"))]
+
+
+def extended(ops_first: bool, k0: bool, k1: bool, k2: bool, k3: bool, k4: bool) -> bool:
+    """
+    pre: k0 or k1 or k2 or k3 or k4
+    post: _
+    """
+    ops_first = bool(ops_first)
+    keep = [bool(k0), bool(k1), bool(k2), bool(k3), bool(k4)]
+    with untraced():
+        listed = [f"{PKG}.{n}" for (n, _t), k in zip(XM, keep) if k]
+        api = api_mod.API.build(gen.dep_files() + build_extended(ops_first), package=PKG, opts=opts_for(listed, False))
+        got_methods = {f"{s.name}.{m}" for s in api.services.values() for m in s.methods}
+        got_msgs = {k[len(PKG) + 1:] for k in api.messages if k.startswith(PKG + ".")}
+        # the listed RPCs plus the extended-operation polling method an initiating RPC needs
+        exp_methods = {n for (n, _t), k in zip(XM, keep) if k}
+        if keep[0]:
+            exp_methods.add("ZoneOps.Get")
+        exp_msgs = set()
+        for n, types in XM:
+            if n in exp_methods:
+                exp_msgs |= set(types)
+        if got_methods != exp_methods or got_msgs != exp_msgs:
+            return False
+        # the kept initiating RPC still resolves its operation service and polling method
+        if keep[0]:
+            ins = api.services[PKG + ".Instances"].methods["Insert"]
+            svc = api.get_custom_operation_service(ins)
+            if svc.operation_polling_method is None or svc.operation_polling_method.name != "Get":
+                return False
+        return True
+
+
 def twin(e01: bool, e12: bool, keep_c: bool) -> bool:
     """
     post: _
